@@ -75,13 +75,38 @@ def SAnn.replacePlaceholders (m : PlaceholderMap) (a : SAnn) : SAnn :=
 
 def SAnn.toProblem (a : SAnn) (role : PRole) : AnnF := ⟨a.name, role, a.formula⟩
 
-/-- `rename_predicates`: predicates in `mapping` get the suffix `_p`. -/
-def Formula.renamePreds (mapping : List Pred) : Formula → Formula
-  | .atomic (.atom a) => if a.predicate ∈ mapping then .atomic (.atom ⟨a.pred ++ "_p", a.args⟩) else .atomic (.atom a)
+/-- the extension `mapping` gives to a predicate, if any -/
+def lookupExt (mapping : List (Pred × String)) (p : Pred) : Option String :=
+  (mapping.find? (fun e => e.1 = p)).map (·.2)
+
+/-- `fol::Atom::rename_predicates`: `format!("{}_{}", symbol, extension)` -/
+def renameAtom (mapping : List (Pred × String)) (a : Atom) : Atom :=
+  match lookupExt mapping a.predicate with
+  | some e => ⟨a.pred ++ "_" ++ e, a.args⟩
+  | none => a
+
+/-- `rename_predicates`: a predicate `p` with `(p, e)` in `mapping` gets the suffix `_e`. -/
+def Formula.renamePreds (mapping : List (Pred × String)) : Formula → Formula
+  | .atomic (.atom a) => .atomic (.atom (renameAtom mapping a))
   | .atomic a => .atomic a
   | .not f => .not (f.renamePreds mapping)
   | .bin c l r => .bin c (l.renamePreds mapping) (r.renamePreds mapping)
   | .quant q vs f => .quant q vs (f.renamePreds mapping)
+
+/-- the extensions tried for a clashing private predicate: `p`, `p1`, `p2`, … -/
+def renExt (i : Nat) : String := if i = 0 then "p" else "p" ++ toString i
+
+def renamedPred (p : Pred) (e : String) : Pred := ⟨p.symbol ++ "_" ++ e, p.arity⟩
+
+/-- the `while occupied.contains(..)` loop: first index from `i` whose renamed predicate is free -/
+def findExt (occ : List Pred) (p : Pred) : Nat → Nat → Nat
+  | 0, i => i
+  | fuel + 1, i => if renamedPred p (renExt i) ∈ occ then findExt occ p fuel (i + 1) else i
+
+/-- one clashing predicate: choose its extension, record the new name as occupied -/
+def clashStep (acc : List Pred × List (Pred × String)) (p : Pred) : List Pred × List (Pred × String) :=
+  let e := renExt (findExt acc.1 p (acc.1.length + 1) 0)
+  (acc.1 ++ [renamedPred p e], acc.2 ++ [(p, e)])
 
 inductive TaskError
   | unsupportedFormulaRepresentation
@@ -393,6 +418,12 @@ def ExternalTask.specPrivate (t : ExternalTask) : List Pred :=
 def ExternalTask.progPrivate (t : ExternalTask) : List Pred :=
   t.program.preds.filter (· ∉ t.userGuide.publicPreds)
 
+/-- the renaming of the program side's private predicates that clash with private predicates of the
+    specification side: every predicate of the task is occupied, and so is every name chosen so far -/
+def ExternalTask.clashMap (t : ExternalTask) : List (Pred × String) :=
+  ((t.specPrivate.filter (· ∈ t.progPrivate)).foldl clashStep
+    (ext (ext t.userGuide.publicPreds t.specPrivate) t.progPrivate, [])).2
+
 def programError (t : ExternalTask) (p : Program) (priv : List Pred) : Option TaskError :=
   if !isTight p && !t.bypassTightness then some .nonTightProgram
   else if hasPrivateRecursion p priv then some .programContainsPrivateRecursion
@@ -452,8 +483,7 @@ def externalProblems (t : ExternalTask) (fuel : Nat) : Outcome (List Problem) :=
       pure (controlTranslate pub th)
     | .inr s => pure (s.map (SAnn.replacePlaceholders m))
   let rightTh ← theoryTranslate t m fuel t.program
-  let clash := specPrivate.filter (· ∈ progPrivate)
-  let right := (controlTranslate pub rightTh).map fun a => { a with formula := a.formula.renamePreds clash }
+  let right := (controlTranslate pub rightTh).map fun a => { a with formula := a.formula.renamePreds t.clashMap }
   -- user guide assumptions
   let ugAss ← ug.formulas.foldl (ugAssStep ug m) (.ok [])
   let taken := right.foldl (fun acc a => ext acc a.formula.preds)
